@@ -168,7 +168,7 @@ class Eval:
                 took = b[1]
             if took:
                 return self.ev(n["then"])
-            return self.ev(n["els"]) if "els" in n else ("unit",)
+            return self.ev(n["else"]) if "else" in n else ("unit",)
         if k == "block":
             for st in n.get("stmts", ()):
                 self.stmt(st)
